@@ -3,6 +3,7 @@ from .. import roles
 from ..cfg import DefIndex, dominators, reachable
 from ..facts import KIND, callee, place_fields
 from ..rules import cover
+from . import prims
 from ..symex import PathLimit, SymEx, show
 
 LEVEL = "other"
@@ -602,4 +603,5 @@ def run(ck, facts, tier):
     rule_no_dropped_states(ck, facts)
     rule_accounting(ck, facts)
     rule_cursor(ck, facts)
+    prims.rule_site_table(ck, facts, "C05.site-table")
     ck.not_decided("that the cursor value at each access equals the layout's offset on a run; VM/WASM flat state-word equality; `cursor back at origin after dsp` as a run-time fact")
